@@ -25,6 +25,17 @@ pub enum Item {
     /// an external pure function the unit calls (another crate): every function of the unit translated after this item
     /// takes it as an explicit parameter, so that theorems quantify over it: (last path segment, Rust fn-pointer type)
     Extern(&'static str, &'static str),
+    /// a type of the crate kept abstract in this unit (open recursion: the functions that recurse through it take the
+    /// recursive callee as a parameter, see `ExternMethod`): every struct, enum and function after this item is
+    /// parametrised by it
+    Opaque(&'static str),
+    /// a method of an opaque (or other untranslated) type that the unit calls: (type, method, Lean parameter name,
+    /// Rust fn-pointer type with the receiver first).  A `Result<_>` return type makes the call fallible (`?`-style).
+    ExternMethod(&'static str, &'static str, &'static str, &'static str),
+    /// a one-expression getter method, expanded in place at its call sites (and usable as a function value)
+    InlineGetter(&'static str, &'static str),
+    /// `impl Deref for T` whose `deref` is `&self.<field>`: method calls that `T` does not answer go to that field
+    Deref(&'static str),
     /// a type name standing for some `R: Read` (modelled as the list of chunks its reads deliver)
     Reader(&'static str),
     /// a hand-written Lean definition emitted verbatim (a mirror of library / iterator plumbing): (what it mirrors, text)
@@ -39,6 +50,10 @@ impl Item {
             Item::Fn(n) | Item::Const(n) | Item::Struct(n, _) => n.to_string(),
             Item::Mirror(n, _) => format!("mirror:{}", n),
             Item::Reader(n) => format!("reader:{}", n),
+            Item::Opaque(n) => format!("opaque:{}", n),
+            Item::Deref(n) => format!("deref:{}", n),
+            Item::ExternMethod(t, m, ..) => format!("extern:{}::{}", t, m),
+            Item::InlineGetter(t, m) => format!("getter:{}::{}", t, m),
             Item::Extern(n, _) => format!("extern:{}", n),
             Item::FnWithSig(f, n, ..) => format!("{}[as {}]", f, n),
             Item::Enum(n) => n.to_string(),
@@ -136,10 +151,12 @@ pub fn units() -> Vec<Unit> {
             fns: vec![
                 Item::Struct("HermesScopeOffset", &["line", "column", "name_index"]),
                 Item::Struct("HermesFunctionMap", &["names", "mappings"]),
-                Item::Struct("SourceMapHermes", &["function_maps"]),
+                Item::Struct("SourceMapHermes", &["sm", "function_maps"]),
+                Item::Deref("SourceMapHermes"),
                 Item::Method("SourceMapHermes", "get_scope_for_token"),
+                Item::Method("SourceMapHermes", "get_original_function_name"),
             ],
-            imports: vec!["RsTypes"],
+            imports: vec!["RsUtils", "RsTypes"],
         },
         Unit {
             module: "RsSourceView",
@@ -216,6 +233,35 @@ pub fn units() -> Vec<Unit> {
                 Item::Method("SourceMap", "adjust_mappings"),
             ],
             imports: vec!["RsUtils", "RsTypes"],
+        },
+        Unit {
+            module: "RsIndex",
+            file: "types.rs",
+            fns: vec![
+                Item::Opaque("DecodedMap"),
+                Item::Struct("SourceMapSection", &["offset", "url", "map"]),
+                Item::Struct("SourceMapIndex", &["sections"]),
+                Item::InlineGetter("SourceMapSection", "get_offset"),
+                Item::InlineGetter("SourceMapSection", "get_sourcemap"),
+                Item::ExternMethod("DecodedMap", "lookup_token", "DecodedMap_lookup_token", "fn(&DecodedMap, u32, u32) -> Result<Option<Token>>"),
+                Item::Method("SourceMapIndex", "lookup_token"),
+            ],
+            imports: vec!["RsUtils", "RsTypes"],
+        },
+        Unit {
+            module: "RsDecodedMap",
+            file: "types.rs",
+            fns: vec![
+                Item::Opaque("SourceMapIndex"),
+                Item::Enum("DecodedMap"),
+                Item::Opaque("SourceView"),
+                Item::ExternMethod("SourceMapIndex", "lookup_token", "SourceMapIndex_lookup_token", "fn(&SourceMapIndex, u32, u32) -> Result<Option<Token>>"),
+                Item::ExternMethod("SourceMap", "get_original_function_name", "SourceMap_get_original_function_name", "fn(&SourceMap, u32, u32, &str, &SourceView) -> Result<Option<&str>>"),
+                Item::ExternMethod("SourceMapIndex", "get_original_function_name", "SourceMapIndex_get_original_function_name", "fn(&SourceMapIndex, u32, u32, &str, &SourceView) -> Result<Option<&str>>"),
+                Item::Method("DecodedMap", "lookup_token"),
+                Item::Method("DecodedMap", "get_original_function_name"),
+            ],
+            imports: vec!["RsUtils", "RsTypes", "RsHermes"],
         },
         Unit {
             module: "RsDetector",
